@@ -1,4 +1,8 @@
 #include <solver/ellipsoid.h>
+#ifdef NANO_VERIF
+#include <nano/verif.h>
+#include <vector>
+#endif
 
 using namespace nano;
 
@@ -50,6 +54,19 @@ solver_state_t solver_ellipsoid_t::do_minimize(const function_t& function, const
             break;
         }
 
+#ifdef NANO_VERIF
+        std::vector<double> verif_values;
+        {
+            const auto size = function.size();
+            verif_values.push_back(static_cast<double>(size));
+            verif_values.push_back(f);
+            verif_values.push_back(state.fx());
+            verif_values.push_back(gHg);
+            verif_values.insert(verif_values.end(), x.data(), x.data() + size);
+            verif_values.insert(verif_values.end(), g.data(), g.data() + size);
+            verif_values.insert(verif_values.end(), H.data(), H.data() + size * size);
+        }
+#endif
         if (function.size() == 1)
         {
             // NB: the ellipsoid method becomes bisection for the 1D case.
@@ -66,6 +83,15 @@ solver_state_t solver_ellipsoid_t::do_minimize(const function_t& function, const
                            (Hm - 2 * (1 + n * alpha) / (n + 1) / (1 + alpha) * (Hm * gv * gv.transpose() * Hm) / gHg);
         }
 
+#ifdef NANO_VERIF
+        {
+            const auto size = function.size();
+            verif_values.insert(verif_values.end(), x.data(), x.data() + size);
+            verif_values.insert(verif_values.end(), H.data(), H.data() + size * size);
+            ::nano::verif::event_values(::nano::verif::ev_ellipsoid_update, this, verif_values.data(),
+                                        static_cast<int>(verif_values.size()));
+        }
+#endif
         f = function.vgrad(x, g);
         state.update_if_better(x, g, f);
 
